@@ -206,6 +206,14 @@ def run(tier):
             sc = rf.scenario("c10d-%d" % j, [retry_checks.PUB(1)], ["conn"], [], opts={"hammerPub": (3, 6, 10)[j % 3], "hammerSleepUs": (1, 20, 5, 20)[j % 4], "connTimeoutMs": 300})
             sc["reqs"] += [{"k": "sleep", "ms": 1 + j % 3, "at": "conn"}, {"k": "disconnect", "at": "conn"}]
             dsc.append(sc)
+        # subscriptions changing (the submitters' Unsubscribe calls run in the task goroutine) while the reconnect loop
+        # restores them after a lost session / with AlwaysResubscribe
+        for j in range(10 if tier == "quick" else 80):
+            fl = [{"p": "PUBLISH", "n": k, "o": "cutAfter"} for k in (1, 2, 3)][: 2 + j % 2]
+            wl = [retry_checks.SUB(("x", 1), ("y", 2))] + [retry_checks.PUB(1)] * (len(fl) + 1)
+            sc = rf.scenario("c10r-%d" % j, wl, ["conn"] * len(wl), fl, connacks=retry_checks.LOST[2] if j % 2 else [],
+                             opts={"alwaysResub": j % 2 == 0, "hammerPub": 3, "hammerSleepUs": (1, 5, 20)[j % 3], "connTimeoutMs": 300})
+            dsc.append(sc)
         # DirectlyPublishQoS0: the callers' goroutines write on whatever base client is current while the reconnect loop
         # replaces and initialises it (SetClient, then Connect -> init) -- several reconnects each
         for j in range(16 if tier == "quick" else 80):
